@@ -173,10 +173,9 @@ def c10_census(a: int, b: int, layout: int, nenum: int, cls_enum: int, fshape: i
     post: _
     """
     a, b, layout = pick(a, 0, NREP), pick(b, 0, NREP), pick(layout, 0, NL)
+    nenum, cls_enum, fshape, ign = (a + layout) % 3, (a + b) % 2, (b + layout) % 4, (a + b + layout) % 3
     if THOROUGH:
-        nenum, cls_enum, fshape, ign = pick(nenum, 0, 3), pick(cls_enum, 0, 2), pick(fshape, 0, 4), pick(ign, 0, 3)
-    else:
-        nenum, cls_enum, fshape, ign = (a + layout) % 3, (a + b) % 2, (b + layout) % 4, (a + b + layout) % 3
+        ign = pick(ign, 0, 3)
     with concrete():
         ok = check(REPS[a], REPS[b], layout, nenum, cls_enum, fshape, ign)
     reached({"a": REPS[a], "b": REPS[b], "layout": layout} if (not ok or (a == 4 and b == 7)) else None)
@@ -190,7 +189,7 @@ def c10_all_classes(code: int, layout: int) -> bool:
     post: _
     """
     code = pick(code, 0, NC)
-    layout = pick(layout, 0, NL) if THOROUGH else code % NL
+    layout = (code + pick(layout, 0, 2)) % NL if THOROUGH else code % NL
     with concrete():
         ok = check(code, REPS[code % NREP], layout, code % 3, code % 2, code % 4, (code // 3) % 3)
     reached({"code": code, "layout": layout} if not ok else None)
